@@ -272,8 +272,19 @@ fn measure(c: &Case, n: usize) -> (isize, isize, u64) {
         }
         Cfg::Lossy { width } => {
             let mut s: LossyCounter<u64> = LossyCounter::with_width(width);
+            // two stream shapes: hot elements sprinkled in, or a hot element sitting exactly on every
+            // window end (the add that triggers pruning) with never-repeating elements in between
+            let on_window_end = seed % 2 == 1;
             for i in 0..n {
-                s.add(if i % 5 == 0 { item(i % 3) } else { item(i) });
+                let x = if on_window_end {
+                    // the hot element also occurs mid-window, so it is already tracked when it closes the window
+                    if (i + 1) % width == 0 || (i + 1) % width == (width + 1) / 2 { item(0) } else { item(i + 1) }
+                } else if i % 5 == 0 {
+                    item(i % 3)
+                } else {
+                    item(i)
+                };
+                s.add(x);
                 if i == clear_pos {
                     s.clear();
                 }
